@@ -48,6 +48,11 @@ def detect(patch, props):
     assert o.strip() == "", "/repo is not clean: " + o
     rc, o = sh("git -C /repo apply %s" % patch)
     assert rc == 0, o
+    # the evidence files describe the unchanged tree: keep them
+    import shutil
+    import tempfile
+    keep = tempfile.mkdtemp(prefix="evidence_keep_")
+    shutil.copytree(os.path.join(VERIF, "evidence"), os.path.join(keep, "evidence"))
     try:
         for pid in props:
             rc, o = sh("timeout 1500 ./check %s --quick" % pid, cwd=VERIF)
@@ -56,6 +61,9 @@ def detect(patch, props):
     finally:
         sh("git -C /repo checkout -- .")
         sh("/venv/bin/python harness/py2coq.py", cwd=VERIF)
+        shutil.rmtree(os.path.join(VERIF, "evidence"), ignore_errors=True)
+        shutil.copytree(os.path.join(keep, "evidence"), os.path.join(VERIF, "evidence"))
+        shutil.rmtree(keep, ignore_errors=True)
     return out
 
 
